@@ -1,1 +1,1335 @@
-// harness code mounted in serde_avro_fast (see DESIGN.md)
+// Mounted in serde_avro_fast::ser::serializer — datum serializer harnesses (C01 C02 C13 C14)
+use super::*;
+use crate::schema::verif as nodes;
+use crate::verif::{io::*, spec};
+
+/// Run the real serializer for `v` against the constant node, into an infallible fixed buffer.
+pub(crate) fn ser_to<const N: usize, T: Serialize + ?Sized>(
+	node: &'static SchemaNode<'static>,
+	v: &T,
+	slow_seq: bool,
+) -> (Result<(), SerError>, FixedBuf<N>) {
+	let mut config = SerializerConfig::new_with_optional_schema(None);
+	if slow_seq {
+		config.allow_slow_sequence_to_bytes();
+	}
+	let mut state = SerializerState::from_writer(FixedBuf::<N>::new(), &mut config);
+	let r = v.serialize(state.serializer_overriding_schema_root(node));
+	let w = state.into_writer();
+	std::mem::forget(config);
+	(r, w)
+}
+
+pub(crate) fn bytes_eq(a: &[u8], b: &[u8]) -> bool {
+	if a.len() != b.len() {
+		return false;
+	}
+	let mut i = 0;
+	while i < a.len() {
+		if a[i] != b[i] {
+			return false;
+		}
+		i += 1;
+	}
+	true
+}
+
+pub(crate) trait IntSrc: Serialize + Copy {
+	fn to_i128(self) -> Option<i128>;
+}
+macro_rules! int_src {
+	($($t:ty)*) => {$(
+		impl IntSrc for $t {
+			fn to_i128(self) -> Option<i128> {
+				i128::try_from(self).ok()
+			}
+		}
+	)*};
+}
+int_src!(i8 i16 i32 i64 i128 u8 u16 u32 u64 u128);
+
+#[derive(Clone, Copy)]
+pub(crate) enum IntKind {
+	Int,
+	Long,
+	DecBytes(u32),
+	DecFixed(usize, u32),
+	Enum(i128),
+}
+
+const fn pow10(s: u32) -> i128 {
+	let mut r = 1i128;
+	let mut i = 0;
+	while i < s {
+		r *= 10;
+		i += 1;
+	}
+	r
+}
+
+/// One cell of the (integer presentation x schema kind) matrix.
+/// Ok  => bytes are exactly the specification's encoding of the same logical value
+/// value not representable under the schema => Err
+/// representable => Ok (the C01 half: conforming values serialize)
+pub(crate) fn cell_int<T: IntSrc>(v: T, node: &'static SchemaNode<'static>, kind: IntKind) {
+	let (r, out) = ser_to::<40, T>(node, &v, false);
+	let exact = v.to_i128();
+	let got = out.bytes();
+	let mut want = [0u8; 10];
+	match kind {
+		IntKind::Int | IntKind::Long => {
+			let fits = match (exact, kind) {
+				(Some(x), IntKind::Int) => x >= i32::MIN as i128 && x <= i32::MAX as i128,
+				(Some(x), _) => x >= i64::MIN as i128 && x <= i64::MAX as i128,
+				(None, _) => false,
+			};
+			kani::cover!(fits && r.is_ok());
+			if r.is_ok() {
+				assert!(fits, "c02_int: Ok for an integer outside the range of the Avro type");
+				let n = spec::put_long(exact.unwrap() as i64, &mut want, 0);
+				assert!(bytes_eq(got, &want[..n]), "c02_int: bytes differ from the zig-zag varint of the value");
+			} else {
+				assert!(!fits, "c02_int: representable integer rejected");
+			}
+		}
+		IntKind::Enum(k) => {
+			let fits = match exact {
+				Some(x) => x >= 0 && x < k,
+				None => false,
+			};
+			kani::cover!(fits && r.is_ok());
+			if r.is_ok() {
+				assert!(fits, "c02_int_enum: Ok for an enum index that is not in the schema");
+				let n = spec::put_long(exact.unwrap() as i64, &mut want, 0);
+				assert!(bytes_eq(got, &want[..n]), "c02_int_enum: bytes differ from the varint of the index");
+			} else {
+				assert!(!fits, "c02_int_enum: valid enum index rejected");
+			}
+		}
+		IntKind::DecBytes(scale) => {
+			let unscaled = match exact {
+				Some(x) => x.checked_mul(pow10(scale)),
+				None => None,
+			};
+			kani::cover!(r.is_ok());
+			if r.is_ok() {
+				assert!(unscaled.is_some(), "c02_int_dec: Ok for a value whose unscaled form overflows 16 bytes");
+				// length prefix then two's complement big-endian
+				let (l, ln) = match spec::get_uvarint(got) {
+					Some(x) => x,
+					None => {
+						assert!(false, "c02_int_dec: no length prefix");
+						return;
+					}
+				};
+				let l = spec::unzigzag64(l);
+				assert!(l >= 0 && l <= 16 && ln + l as usize == got.len(), "c02_int_dec: length prefix does not match payload");
+				let payload = &got[ln..];
+				assert!(spec::twos_complement(payload) == unscaled.unwrap(), "c02_int_dec: decimal(bytes) payload decodes to a different number");
+			} else {
+				assert!(unscaled.is_none(), "c02_int_dec: representable decimal rejected");
+			}
+		}
+		IntKind::DecFixed(size, scale) => {
+			let unscaled = match exact {
+				Some(x) => x.checked_mul(pow10(scale)),
+				None => None,
+			};
+			let fits = match unscaled {
+				Some(u) => size <= 16 && spec::fits_twos_complement(u, size),
+				None => false,
+			};
+			kani::cover!(r.is_ok());
+			if r.is_ok() {
+				assert!(fits, "c02_int_decfixed: Ok for a number that does not fit the fixed size");
+				assert!(got.len() == size, "c02_int_decfixed: wrong number of bytes for fixed");
+				assert!(spec::twos_complement(got) == unscaled.unwrap(), "c02_int_decfixed: decimal(fixed) bytes decode to a different number");
+			} else {
+				assert!(!fits, "c02_int_decfixed: representable decimal rejected");
+			}
+		}
+	}
+	std::mem::forget(r);
+}
+
+// ---- generated: integer presentation x schema kind cell matrix (C02, and the 'succeeds' half of C01) ----
+
+// @harness props=C02,C01 tier=thorough timeout=900
+// @bound every value of i8 presented through serialize_i8 against node int (IntKind::Int); output <= 40 bytes; unwind 18 >= 16 decimal bytes + 2
+#[kani::proof]
+#[kani::unwind(18)]
+#[kani::stub(alloc::fmt::format, crate::verif::stub_format)]
+fn c02_int_i8_int() {
+	cell_int::<i8>(kani::any(), &nodes::INT, IntKind::Int);
+}
+
+// @harness props=C02,C01 tier=thorough timeout=900
+// @bound every value of i16 presented through serialize_i16 against node int (IntKind::Int); output <= 40 bytes; unwind 18 >= 16 decimal bytes + 2
+#[kani::proof]
+#[kani::unwind(18)]
+#[kani::stub(alloc::fmt::format, crate::verif::stub_format)]
+fn c02_int_i16_int() {
+	cell_int::<i16>(kani::any(), &nodes::INT, IntKind::Int);
+}
+
+// @harness props=C02,C01 tier=quick timeout=900
+// @bound every value of i32 presented through serialize_i32 against node int (IntKind::Int); output <= 40 bytes; unwind 18 >= 16 decimal bytes + 2
+#[kani::proof]
+#[kani::unwind(18)]
+#[kani::stub(alloc::fmt::format, crate::verif::stub_format)]
+fn c02_int_i32_int() {
+	cell_int::<i32>(kani::any(), &nodes::INT, IntKind::Int);
+}
+
+// @harness props=C02,C01 tier=quick timeout=900
+// @bound every value of i64 presented through serialize_i64 against node int (IntKind::Int); output <= 40 bytes; unwind 18 >= 16 decimal bytes + 2
+#[kani::proof]
+#[kani::unwind(18)]
+#[kani::stub(alloc::fmt::format, crate::verif::stub_format)]
+fn c02_int_i64_int() {
+	cell_int::<i64>(kani::any(), &nodes::INT, IntKind::Int);
+}
+
+// @harness props=C02,C01 tier=quick timeout=900
+// @bound every value of i128 presented through serialize_i128 against node int (IntKind::Int); output <= 40 bytes; unwind 18 >= 16 decimal bytes + 2
+#[kani::proof]
+#[kani::unwind(18)]
+#[kani::stub(alloc::fmt::format, crate::verif::stub_format)]
+fn c02_int_i128_int() {
+	cell_int::<i128>(kani::any(), &nodes::INT, IntKind::Int);
+}
+
+// @harness props=C02,C01 tier=quick timeout=900
+// @bound every value of u8 presented through serialize_u8 against node int (IntKind::Int); output <= 40 bytes; unwind 18 >= 16 decimal bytes + 2
+#[kani::proof]
+#[kani::unwind(18)]
+#[kani::stub(alloc::fmt::format, crate::verif::stub_format)]
+fn c02_int_u8_int() {
+	cell_int::<u8>(kani::any(), &nodes::INT, IntKind::Int);
+}
+
+// @harness props=C02,C01 tier=thorough timeout=900
+// @bound every value of u16 presented through serialize_u16 against node int (IntKind::Int); output <= 40 bytes; unwind 18 >= 16 decimal bytes + 2
+#[kani::proof]
+#[kani::unwind(18)]
+#[kani::stub(alloc::fmt::format, crate::verif::stub_format)]
+fn c02_int_u16_int() {
+	cell_int::<u16>(kani::any(), &nodes::INT, IntKind::Int);
+}
+
+// @harness props=C02,C01 tier=thorough timeout=900
+// @bound every value of u32 presented through serialize_u32 against node int (IntKind::Int); output <= 40 bytes; unwind 18 >= 16 decimal bytes + 2
+#[kani::proof]
+#[kani::unwind(18)]
+#[kani::stub(alloc::fmt::format, crate::verif::stub_format)]
+fn c02_int_u32_int() {
+	cell_int::<u32>(kani::any(), &nodes::INT, IntKind::Int);
+}
+
+// @harness props=C02,C01 tier=quick timeout=900
+// @bound every value of u64 presented through serialize_u64 against node int (IntKind::Int); output <= 40 bytes; unwind 18 >= 16 decimal bytes + 2
+#[kani::proof]
+#[kani::unwind(18)]
+#[kani::stub(alloc::fmt::format, crate::verif::stub_format)]
+fn c02_int_u64_int() {
+	cell_int::<u64>(kani::any(), &nodes::INT, IntKind::Int);
+}
+
+// @harness props=C02,C01 tier=thorough timeout=900
+// @bound every value of u128 presented through serialize_u128 against node int (IntKind::Int); output <= 40 bytes; unwind 18 >= 16 decimal bytes + 2
+#[kani::proof]
+#[kani::unwind(18)]
+#[kani::stub(alloc::fmt::format, crate::verif::stub_format)]
+fn c02_int_u128_int() {
+	cell_int::<u128>(kani::any(), &nodes::INT, IntKind::Int);
+}
+
+// @harness props=C02,C01 tier=thorough timeout=900
+// @bound every value of i8 presented through serialize_i8 against node long (IntKind::Long); output <= 40 bytes; unwind 18 >= 16 decimal bytes + 2
+#[kani::proof]
+#[kani::unwind(18)]
+#[kani::stub(alloc::fmt::format, crate::verif::stub_format)]
+fn c02_int_i8_long() {
+	cell_int::<i8>(kani::any(), &nodes::LONG, IntKind::Long);
+}
+
+// @harness props=C02,C01 tier=thorough timeout=900
+// @bound every value of i16 presented through serialize_i16 against node long (IntKind::Long); output <= 40 bytes; unwind 18 >= 16 decimal bytes + 2
+#[kani::proof]
+#[kani::unwind(18)]
+#[kani::stub(alloc::fmt::format, crate::verif::stub_format)]
+fn c02_int_i16_long() {
+	cell_int::<i16>(kani::any(), &nodes::LONG, IntKind::Long);
+}
+
+// @harness props=C02,C01 tier=quick timeout=900
+// @bound every value of i32 presented through serialize_i32 against node long (IntKind::Long); output <= 40 bytes; unwind 18 >= 16 decimal bytes + 2
+#[kani::proof]
+#[kani::unwind(18)]
+#[kani::stub(alloc::fmt::format, crate::verif::stub_format)]
+fn c02_int_i32_long() {
+	cell_int::<i32>(kani::any(), &nodes::LONG, IntKind::Long);
+}
+
+// @harness props=C02,C01 tier=quick timeout=900
+// @bound every value of i64 presented through serialize_i64 against node long (IntKind::Long); output <= 40 bytes; unwind 18 >= 16 decimal bytes + 2
+#[kani::proof]
+#[kani::unwind(18)]
+#[kani::stub(alloc::fmt::format, crate::verif::stub_format)]
+fn c02_int_i64_long() {
+	cell_int::<i64>(kani::any(), &nodes::LONG, IntKind::Long);
+}
+
+// @harness props=C02,C01 tier=quick timeout=900
+// @bound every value of i128 presented through serialize_i128 against node long (IntKind::Long); output <= 40 bytes; unwind 18 >= 16 decimal bytes + 2
+#[kani::proof]
+#[kani::unwind(18)]
+#[kani::stub(alloc::fmt::format, crate::verif::stub_format)]
+fn c02_int_i128_long() {
+	cell_int::<i128>(kani::any(), &nodes::LONG, IntKind::Long);
+}
+
+// @harness props=C02,C01 tier=quick timeout=900
+// @bound every value of u8 presented through serialize_u8 against node long (IntKind::Long); output <= 40 bytes; unwind 18 >= 16 decimal bytes + 2
+#[kani::proof]
+#[kani::unwind(18)]
+#[kani::stub(alloc::fmt::format, crate::verif::stub_format)]
+fn c02_int_u8_long() {
+	cell_int::<u8>(kani::any(), &nodes::LONG, IntKind::Long);
+}
+
+// @harness props=C02,C01 tier=thorough timeout=900
+// @bound every value of u16 presented through serialize_u16 against node long (IntKind::Long); output <= 40 bytes; unwind 18 >= 16 decimal bytes + 2
+#[kani::proof]
+#[kani::unwind(18)]
+#[kani::stub(alloc::fmt::format, crate::verif::stub_format)]
+fn c02_int_u16_long() {
+	cell_int::<u16>(kani::any(), &nodes::LONG, IntKind::Long);
+}
+
+// @harness props=C02,C01 tier=thorough timeout=900
+// @bound every value of u32 presented through serialize_u32 against node long (IntKind::Long); output <= 40 bytes; unwind 18 >= 16 decimal bytes + 2
+#[kani::proof]
+#[kani::unwind(18)]
+#[kani::stub(alloc::fmt::format, crate::verif::stub_format)]
+fn c02_int_u32_long() {
+	cell_int::<u32>(kani::any(), &nodes::LONG, IntKind::Long);
+}
+
+// @harness props=C02,C01 tier=quick timeout=900
+// @bound every value of u64 presented through serialize_u64 against node long (IntKind::Long); output <= 40 bytes; unwind 18 >= 16 decimal bytes + 2
+#[kani::proof]
+#[kani::unwind(18)]
+#[kani::stub(alloc::fmt::format, crate::verif::stub_format)]
+fn c02_int_u64_long() {
+	cell_int::<u64>(kani::any(), &nodes::LONG, IntKind::Long);
+}
+
+// @harness props=C02,C01 tier=thorough timeout=900
+// @bound every value of u128 presented through serialize_u128 against node long (IntKind::Long); output <= 40 bytes; unwind 18 >= 16 decimal bytes + 2
+#[kani::proof]
+#[kani::unwind(18)]
+#[kani::stub(alloc::fmt::format, crate::verif::stub_format)]
+fn c02_int_u128_long() {
+	cell_int::<u128>(kani::any(), &nodes::LONG, IntKind::Long);
+}
+
+// @harness props=C02,C01 tier=thorough timeout=900
+// @bound every value of i64 presented through serialize_i64 against node date (IntKind::Int); output <= 40 bytes; unwind 18 >= 16 decimal bytes + 2
+#[kani::proof]
+#[kani::unwind(18)]
+#[kani::stub(alloc::fmt::format, crate::verif::stub_format)]
+fn c02_int_i64_date() {
+	cell_int::<i64>(kani::any(), &nodes::DATE, IntKind::Int);
+}
+
+// @harness props=C02,C01 tier=thorough timeout=900
+// @bound every value of u32 presented through serialize_u32 against node date (IntKind::Int); output <= 40 bytes; unwind 18 >= 16 decimal bytes + 2
+#[kani::proof]
+#[kani::unwind(18)]
+#[kani::stub(alloc::fmt::format, crate::verif::stub_format)]
+fn c02_int_u32_date() {
+	cell_int::<u32>(kani::any(), &nodes::DATE, IntKind::Int);
+}
+
+// @harness props=C02,C01 tier=thorough timeout=900
+// @bound every value of i64 presented through serialize_i64 against node time_millis (IntKind::Int); output <= 40 bytes; unwind 18 >= 16 decimal bytes + 2
+#[kani::proof]
+#[kani::unwind(18)]
+#[kani::stub(alloc::fmt::format, crate::verif::stub_format)]
+fn c02_int_i64_time_millis() {
+	cell_int::<i64>(kani::any(), &nodes::TIME_MILLIS, IntKind::Int);
+}
+
+// @harness props=C02,C01 tier=thorough timeout=900
+// @bound every value of u32 presented through serialize_u32 against node time_millis (IntKind::Int); output <= 40 bytes; unwind 18 >= 16 decimal bytes + 2
+#[kani::proof]
+#[kani::unwind(18)]
+#[kani::stub(alloc::fmt::format, crate::verif::stub_format)]
+fn c02_int_u32_time_millis() {
+	cell_int::<u32>(kani::any(), &nodes::TIME_MILLIS, IntKind::Int);
+}
+
+// @harness props=C02,C01 tier=thorough timeout=900
+// @bound every value of i64 presented through serialize_i64 against node time_micros (IntKind::Long); output <= 40 bytes; unwind 18 >= 16 decimal bytes + 2
+#[kani::proof]
+#[kani::unwind(18)]
+#[kani::stub(alloc::fmt::format, crate::verif::stub_format)]
+fn c02_int_i64_time_micros() {
+	cell_int::<i64>(kani::any(), &nodes::TIME_MICROS, IntKind::Long);
+}
+
+// @harness props=C02,C01 tier=thorough timeout=900
+// @bound every value of u32 presented through serialize_u32 against node time_micros (IntKind::Long); output <= 40 bytes; unwind 18 >= 16 decimal bytes + 2
+#[kani::proof]
+#[kani::unwind(18)]
+#[kani::stub(alloc::fmt::format, crate::verif::stub_format)]
+fn c02_int_u32_time_micros() {
+	cell_int::<u32>(kani::any(), &nodes::TIME_MICROS, IntKind::Long);
+}
+
+// @harness props=C02,C01 tier=thorough timeout=900
+// @bound every value of i64 presented through serialize_i64 against node ts_millis (IntKind::Long); output <= 40 bytes; unwind 18 >= 16 decimal bytes + 2
+#[kani::proof]
+#[kani::unwind(18)]
+#[kani::stub(alloc::fmt::format, crate::verif::stub_format)]
+fn c02_int_i64_ts_millis() {
+	cell_int::<i64>(kani::any(), &nodes::TS_MILLIS, IntKind::Long);
+}
+
+// @harness props=C02,C01 tier=thorough timeout=900
+// @bound every value of u32 presented through serialize_u32 against node ts_millis (IntKind::Long); output <= 40 bytes; unwind 18 >= 16 decimal bytes + 2
+#[kani::proof]
+#[kani::unwind(18)]
+#[kani::stub(alloc::fmt::format, crate::verif::stub_format)]
+fn c02_int_u32_ts_millis() {
+	cell_int::<u32>(kani::any(), &nodes::TS_MILLIS, IntKind::Long);
+}
+
+// @harness props=C02,C01 tier=thorough timeout=900
+// @bound every value of i64 presented through serialize_i64 against node ts_micros (IntKind::Long); output <= 40 bytes; unwind 18 >= 16 decimal bytes + 2
+#[kani::proof]
+#[kani::unwind(18)]
+#[kani::stub(alloc::fmt::format, crate::verif::stub_format)]
+fn c02_int_i64_ts_micros() {
+	cell_int::<i64>(kani::any(), &nodes::TS_MICROS, IntKind::Long);
+}
+
+// @harness props=C02,C01 tier=thorough timeout=900
+// @bound every value of u32 presented through serialize_u32 against node ts_micros (IntKind::Long); output <= 40 bytes; unwind 18 >= 16 decimal bytes + 2
+#[kani::proof]
+#[kani::unwind(18)]
+#[kani::stub(alloc::fmt::format, crate::verif::stub_format)]
+fn c02_int_u32_ts_micros() {
+	cell_int::<u32>(kani::any(), &nodes::TS_MICROS, IntKind::Long);
+}
+
+// @harness props=C02,C01 tier=thorough timeout=900
+// @bound every value of i8 presented through serialize_i8 against node enum2 (IntKind::Enum(2)); output <= 40 bytes; unwind 18 >= 16 decimal bytes + 2
+#[kani::proof]
+#[kani::unwind(18)]
+#[kani::stub(alloc::fmt::format, crate::verif::stub_format)]
+fn c02_int_i8_enum2() {
+	crate::verif::enum_node!(e = "e", None; ["a", "b"]);
+	cell_int::<i8>(kani::any(), e, IntKind::Enum(2));
+}
+
+// @harness props=C02,C01 tier=thorough timeout=900
+// @bound every value of i16 presented through serialize_i16 against node enum2 (IntKind::Enum(2)); output <= 40 bytes; unwind 18 >= 16 decimal bytes + 2
+#[kani::proof]
+#[kani::unwind(18)]
+#[kani::stub(alloc::fmt::format, crate::verif::stub_format)]
+fn c02_int_i16_enum2() {
+	crate::verif::enum_node!(e = "e", None; ["a", "b"]);
+	cell_int::<i16>(kani::any(), e, IntKind::Enum(2));
+}
+
+// @harness props=C02,C01 tier=quick timeout=900
+// @bound every value of i32 presented through serialize_i32 against node enum2 (IntKind::Enum(2)); output <= 40 bytes; unwind 18 >= 16 decimal bytes + 2
+#[kani::proof]
+#[kani::unwind(18)]
+#[kani::stub(alloc::fmt::format, crate::verif::stub_format)]
+fn c02_int_i32_enum2() {
+	crate::verif::enum_node!(e = "e", None; ["a", "b"]);
+	cell_int::<i32>(kani::any(), e, IntKind::Enum(2));
+}
+
+// @harness props=C02,C01 tier=quick timeout=900
+// @bound every value of i64 presented through serialize_i64 against node enum2 (IntKind::Enum(2)); output <= 40 bytes; unwind 18 >= 16 decimal bytes + 2
+#[kani::proof]
+#[kani::unwind(18)]
+#[kani::stub(alloc::fmt::format, crate::verif::stub_format)]
+fn c02_int_i64_enum2() {
+	crate::verif::enum_node!(e = "e", None; ["a", "b"]);
+	cell_int::<i64>(kani::any(), e, IntKind::Enum(2));
+}
+
+// @harness props=C02,C01 tier=quick timeout=900
+// @bound every value of i128 presented through serialize_i128 against node enum2 (IntKind::Enum(2)); output <= 40 bytes; unwind 18 >= 16 decimal bytes + 2
+#[kani::proof]
+#[kani::unwind(18)]
+#[kani::stub(alloc::fmt::format, crate::verif::stub_format)]
+fn c02_int_i128_enum2() {
+	crate::verif::enum_node!(e = "e", None; ["a", "b"]);
+	cell_int::<i128>(kani::any(), e, IntKind::Enum(2));
+}
+
+// @harness props=C02,C01 tier=quick timeout=900
+// @bound every value of u8 presented through serialize_u8 against node enum2 (IntKind::Enum(2)); output <= 40 bytes; unwind 18 >= 16 decimal bytes + 2
+#[kani::proof]
+#[kani::unwind(18)]
+#[kani::stub(alloc::fmt::format, crate::verif::stub_format)]
+fn c02_int_u8_enum2() {
+	crate::verif::enum_node!(e = "e", None; ["a", "b"]);
+	cell_int::<u8>(kani::any(), e, IntKind::Enum(2));
+}
+
+// @harness props=C02,C01 tier=thorough timeout=900
+// @bound every value of u16 presented through serialize_u16 against node enum2 (IntKind::Enum(2)); output <= 40 bytes; unwind 18 >= 16 decimal bytes + 2
+#[kani::proof]
+#[kani::unwind(18)]
+#[kani::stub(alloc::fmt::format, crate::verif::stub_format)]
+fn c02_int_u16_enum2() {
+	crate::verif::enum_node!(e = "e", None; ["a", "b"]);
+	cell_int::<u16>(kani::any(), e, IntKind::Enum(2));
+}
+
+// @harness props=C02,C01 tier=thorough timeout=900
+// @bound every value of u32 presented through serialize_u32 against node enum2 (IntKind::Enum(2)); output <= 40 bytes; unwind 18 >= 16 decimal bytes + 2
+#[kani::proof]
+#[kani::unwind(18)]
+#[kani::stub(alloc::fmt::format, crate::verif::stub_format)]
+fn c02_int_u32_enum2() {
+	crate::verif::enum_node!(e = "e", None; ["a", "b"]);
+	cell_int::<u32>(kani::any(), e, IntKind::Enum(2));
+}
+
+// @harness props=C02,C01 tier=quick timeout=900
+// @bound every value of u64 presented through serialize_u64 against node enum2 (IntKind::Enum(2)); output <= 40 bytes; unwind 18 >= 16 decimal bytes + 2
+#[kani::proof]
+#[kani::unwind(18)]
+#[kani::stub(alloc::fmt::format, crate::verif::stub_format)]
+fn c02_int_u64_enum2() {
+	crate::verif::enum_node!(e = "e", None; ["a", "b"]);
+	cell_int::<u64>(kani::any(), e, IntKind::Enum(2));
+}
+
+// @harness props=C02,C01 tier=thorough timeout=900
+// @bound every value of u128 presented through serialize_u128 against node enum2 (IntKind::Enum(2)); output <= 40 bytes; unwind 18 >= 16 decimal bytes + 2
+#[kani::proof]
+#[kani::unwind(18)]
+#[kani::stub(alloc::fmt::format, crate::verif::stub_format)]
+fn c02_int_u128_enum2() {
+	crate::verif::enum_node!(e = "e", None; ["a", "b"]);
+	cell_int::<u128>(kani::any(), e, IntKind::Enum(2));
+}
+
+// @harness props=C02,C01 tier=thorough timeout=900
+// @bound every value of i8 presented through serialize_i8 against node decb0 (IntKind::DecBytes(0)); output <= 40 bytes; unwind 18 >= 16 decimal bytes + 2
+#[kani::proof]
+#[kani::unwind(18)]
+#[kani::stub(alloc::fmt::format, crate::verif::stub_format)]
+fn c02_int_i8_decb0() {
+	cell_int::<i8>(kani::any(), &nodes::DEC_BYTES_S0, IntKind::DecBytes(0));
+}
+
+// @harness props=C02,C01 tier=thorough timeout=900
+// @bound every value of i16 presented through serialize_i16 against node decb0 (IntKind::DecBytes(0)); output <= 40 bytes; unwind 18 >= 16 decimal bytes + 2
+#[kani::proof]
+#[kani::unwind(18)]
+#[kani::stub(alloc::fmt::format, crate::verif::stub_format)]
+fn c02_int_i16_decb0() {
+	cell_int::<i16>(kani::any(), &nodes::DEC_BYTES_S0, IntKind::DecBytes(0));
+}
+
+// @harness props=C02,C01 tier=quick timeout=900
+// @bound every value of i32 presented through serialize_i32 against node decb0 (IntKind::DecBytes(0)); output <= 40 bytes; unwind 18 >= 16 decimal bytes + 2
+#[kani::proof]
+#[kani::unwind(18)]
+#[kani::stub(alloc::fmt::format, crate::verif::stub_format)]
+fn c02_int_i32_decb0() {
+	cell_int::<i32>(kani::any(), &nodes::DEC_BYTES_S0, IntKind::DecBytes(0));
+}
+
+// @harness props=C02,C01 tier=quick timeout=900
+// @bound every value of i64 presented through serialize_i64 against node decb0 (IntKind::DecBytes(0)); output <= 40 bytes; unwind 18 >= 16 decimal bytes + 2
+#[kani::proof]
+#[kani::unwind(18)]
+#[kani::stub(alloc::fmt::format, crate::verif::stub_format)]
+fn c02_int_i64_decb0() {
+	cell_int::<i64>(kani::any(), &nodes::DEC_BYTES_S0, IntKind::DecBytes(0));
+}
+
+// @harness props=C02,C01 tier=quick timeout=900
+// @bound every value of i128 presented through serialize_i128 against node decb0 (IntKind::DecBytes(0)); output <= 40 bytes; unwind 18 >= 16 decimal bytes + 2
+#[kani::proof]
+#[kani::unwind(18)]
+#[kani::stub(alloc::fmt::format, crate::verif::stub_format)]
+fn c02_int_i128_decb0() {
+	cell_int::<i128>(kani::any(), &nodes::DEC_BYTES_S0, IntKind::DecBytes(0));
+}
+
+// @harness props=C02,C01 tier=quick timeout=900
+// @bound every value of u8 presented through serialize_u8 against node decb0 (IntKind::DecBytes(0)); output <= 40 bytes; unwind 18 >= 16 decimal bytes + 2
+#[kani::proof]
+#[kani::unwind(18)]
+#[kani::stub(alloc::fmt::format, crate::verif::stub_format)]
+fn c02_int_u8_decb0() {
+	cell_int::<u8>(kani::any(), &nodes::DEC_BYTES_S0, IntKind::DecBytes(0));
+}
+
+// @harness props=C02,C01 tier=thorough timeout=900
+// @bound every value of u16 presented through serialize_u16 against node decb0 (IntKind::DecBytes(0)); output <= 40 bytes; unwind 18 >= 16 decimal bytes + 2
+#[kani::proof]
+#[kani::unwind(18)]
+#[kani::stub(alloc::fmt::format, crate::verif::stub_format)]
+fn c02_int_u16_decb0() {
+	cell_int::<u16>(kani::any(), &nodes::DEC_BYTES_S0, IntKind::DecBytes(0));
+}
+
+// @harness props=C02,C01 tier=thorough timeout=900
+// @bound every value of u32 presented through serialize_u32 against node decb0 (IntKind::DecBytes(0)); output <= 40 bytes; unwind 18 >= 16 decimal bytes + 2
+#[kani::proof]
+#[kani::unwind(18)]
+#[kani::stub(alloc::fmt::format, crate::verif::stub_format)]
+fn c02_int_u32_decb0() {
+	cell_int::<u32>(kani::any(), &nodes::DEC_BYTES_S0, IntKind::DecBytes(0));
+}
+
+// @harness props=C02,C01 tier=quick timeout=900
+// @bound every value of u64 presented through serialize_u64 against node decb0 (IntKind::DecBytes(0)); output <= 40 bytes; unwind 18 >= 16 decimal bytes + 2
+#[kani::proof]
+#[kani::unwind(18)]
+#[kani::stub(alloc::fmt::format, crate::verif::stub_format)]
+fn c02_int_u64_decb0() {
+	cell_int::<u64>(kani::any(), &nodes::DEC_BYTES_S0, IntKind::DecBytes(0));
+}
+
+// @harness props=C02,C01 tier=thorough timeout=900
+// @bound every value of u128 presented through serialize_u128 against node decb0 (IntKind::DecBytes(0)); output <= 40 bytes; unwind 18 >= 16 decimal bytes + 2
+#[kani::proof]
+#[kani::unwind(18)]
+#[kani::stub(alloc::fmt::format, crate::verif::stub_format)]
+fn c02_int_u128_decb0() {
+	cell_int::<u128>(kani::any(), &nodes::DEC_BYTES_S0, IntKind::DecBytes(0));
+}
+
+// @harness props=C02,C01 tier=thorough timeout=900
+// @bound every value of i8 presented through serialize_i8 against node decb2 (IntKind::DecBytes(2)); output <= 40 bytes; unwind 18 >= 16 decimal bytes + 2
+#[kani::proof]
+#[kani::unwind(18)]
+#[kani::stub(alloc::fmt::format, crate::verif::stub_format)]
+fn c02_int_i8_decb2() {
+	cell_int::<i8>(kani::any(), &nodes::DEC_BYTES_S2, IntKind::DecBytes(2));
+}
+
+// @harness props=C02,C01 tier=thorough timeout=900
+// @bound every value of i16 presented through serialize_i16 against node decb2 (IntKind::DecBytes(2)); output <= 40 bytes; unwind 18 >= 16 decimal bytes + 2
+#[kani::proof]
+#[kani::unwind(18)]
+#[kani::stub(alloc::fmt::format, crate::verif::stub_format)]
+fn c02_int_i16_decb2() {
+	cell_int::<i16>(kani::any(), &nodes::DEC_BYTES_S2, IntKind::DecBytes(2));
+}
+
+// @harness props=C02,C01 tier=quick timeout=900
+// @bound every value of i32 presented through serialize_i32 against node decb2 (IntKind::DecBytes(2)); output <= 40 bytes; unwind 18 >= 16 decimal bytes + 2
+#[kani::proof]
+#[kani::unwind(18)]
+#[kani::stub(alloc::fmt::format, crate::verif::stub_format)]
+fn c02_int_i32_decb2() {
+	cell_int::<i32>(kani::any(), &nodes::DEC_BYTES_S2, IntKind::DecBytes(2));
+}
+
+// @harness props=C02,C01 tier=quick timeout=900
+// @bound every value of i64 presented through serialize_i64 against node decb2 (IntKind::DecBytes(2)); output <= 40 bytes; unwind 18 >= 16 decimal bytes + 2
+#[kani::proof]
+#[kani::unwind(18)]
+#[kani::stub(alloc::fmt::format, crate::verif::stub_format)]
+fn c02_int_i64_decb2() {
+	cell_int::<i64>(kani::any(), &nodes::DEC_BYTES_S2, IntKind::DecBytes(2));
+}
+
+// @harness props=C02,C01 tier=quick timeout=900
+// @bound every value of i128 presented through serialize_i128 against node decb2 (IntKind::DecBytes(2)); output <= 40 bytes; unwind 18 >= 16 decimal bytes + 2
+#[kani::proof]
+#[kani::unwind(18)]
+#[kani::stub(alloc::fmt::format, crate::verif::stub_format)]
+fn c02_int_i128_decb2() {
+	cell_int::<i128>(kani::any(), &nodes::DEC_BYTES_S2, IntKind::DecBytes(2));
+}
+
+// @harness props=C02,C01 tier=quick timeout=900
+// @bound every value of u8 presented through serialize_u8 against node decb2 (IntKind::DecBytes(2)); output <= 40 bytes; unwind 18 >= 16 decimal bytes + 2
+#[kani::proof]
+#[kani::unwind(18)]
+#[kani::stub(alloc::fmt::format, crate::verif::stub_format)]
+fn c02_int_u8_decb2() {
+	cell_int::<u8>(kani::any(), &nodes::DEC_BYTES_S2, IntKind::DecBytes(2));
+}
+
+// @harness props=C02,C01 tier=thorough timeout=900
+// @bound every value of u16 presented through serialize_u16 against node decb2 (IntKind::DecBytes(2)); output <= 40 bytes; unwind 18 >= 16 decimal bytes + 2
+#[kani::proof]
+#[kani::unwind(18)]
+#[kani::stub(alloc::fmt::format, crate::verif::stub_format)]
+fn c02_int_u16_decb2() {
+	cell_int::<u16>(kani::any(), &nodes::DEC_BYTES_S2, IntKind::DecBytes(2));
+}
+
+// @harness props=C02,C01 tier=thorough timeout=900
+// @bound every value of u32 presented through serialize_u32 against node decb2 (IntKind::DecBytes(2)); output <= 40 bytes; unwind 18 >= 16 decimal bytes + 2
+#[kani::proof]
+#[kani::unwind(18)]
+#[kani::stub(alloc::fmt::format, crate::verif::stub_format)]
+fn c02_int_u32_decb2() {
+	cell_int::<u32>(kani::any(), &nodes::DEC_BYTES_S2, IntKind::DecBytes(2));
+}
+
+// @harness props=C02,C01 tier=quick timeout=900
+// @bound every value of u64 presented through serialize_u64 against node decb2 (IntKind::DecBytes(2)); output <= 40 bytes; unwind 18 >= 16 decimal bytes + 2
+#[kani::proof]
+#[kani::unwind(18)]
+#[kani::stub(alloc::fmt::format, crate::verif::stub_format)]
+fn c02_int_u64_decb2() {
+	cell_int::<u64>(kani::any(), &nodes::DEC_BYTES_S2, IntKind::DecBytes(2));
+}
+
+// @harness props=C02,C01 tier=thorough timeout=900
+// @bound every value of u128 presented through serialize_u128 against node decb2 (IntKind::DecBytes(2)); output <= 40 bytes; unwind 18 >= 16 decimal bytes + 2
+#[kani::proof]
+#[kani::unwind(18)]
+#[kani::stub(alloc::fmt::format, crate::verif::stub_format)]
+fn c02_int_u128_decb2() {
+	cell_int::<u128>(kani::any(), &nodes::DEC_BYTES_S2, IntKind::DecBytes(2));
+}
+
+// @harness props=C02,C01 tier=thorough timeout=900
+// @bound every value of i8 presented through serialize_i8 against node decf0_0 (IntKind::DecFixed(0, 0)); output <= 40 bytes; unwind 18 >= 16 decimal bytes + 2
+#[kani::proof]
+#[kani::unwind(18)]
+#[kani::stub(alloc::fmt::format, crate::verif::stub_format)]
+fn c02_int_i8_decf0_0() {
+	cell_int::<i8>(kani::any(), &nodes::DEC_FIXED0_S0, IntKind::DecFixed(0, 0));
+}
+
+// @harness props=C02,C01 tier=thorough timeout=900
+// @bound every value of i16 presented through serialize_i16 against node decf0_0 (IntKind::DecFixed(0, 0)); output <= 40 bytes; unwind 18 >= 16 decimal bytes + 2
+#[kani::proof]
+#[kani::unwind(18)]
+#[kani::stub(alloc::fmt::format, crate::verif::stub_format)]
+fn c02_int_i16_decf0_0() {
+	cell_int::<i16>(kani::any(), &nodes::DEC_FIXED0_S0, IntKind::DecFixed(0, 0));
+}
+
+// @harness props=C02,C01 tier=thorough timeout=900
+// @bound every value of i32 presented through serialize_i32 against node decf0_0 (IntKind::DecFixed(0, 0)); output <= 40 bytes; unwind 18 >= 16 decimal bytes + 2
+#[kani::proof]
+#[kani::unwind(18)]
+#[kani::stub(alloc::fmt::format, crate::verif::stub_format)]
+fn c02_int_i32_decf0_0() {
+	cell_int::<i32>(kani::any(), &nodes::DEC_FIXED0_S0, IntKind::DecFixed(0, 0));
+}
+
+// @harness props=C02,C01 tier=thorough timeout=900
+// @bound every value of i64 presented through serialize_i64 against node decf0_0 (IntKind::DecFixed(0, 0)); output <= 40 bytes; unwind 18 >= 16 decimal bytes + 2
+#[kani::proof]
+#[kani::unwind(18)]
+#[kani::stub(alloc::fmt::format, crate::verif::stub_format)]
+fn c02_int_i64_decf0_0() {
+	cell_int::<i64>(kani::any(), &nodes::DEC_FIXED0_S0, IntKind::DecFixed(0, 0));
+}
+
+// @harness props=C02,C01 tier=thorough timeout=900
+// @bound every value of i128 presented through serialize_i128 against node decf0_0 (IntKind::DecFixed(0, 0)); output <= 40 bytes; unwind 18 >= 16 decimal bytes + 2
+#[kani::proof]
+#[kani::unwind(18)]
+#[kani::stub(alloc::fmt::format, crate::verif::stub_format)]
+fn c02_int_i128_decf0_0() {
+	cell_int::<i128>(kani::any(), &nodes::DEC_FIXED0_S0, IntKind::DecFixed(0, 0));
+}
+
+// @harness props=C02,C01 tier=thorough timeout=900
+// @bound every value of u8 presented through serialize_u8 against node decf0_0 (IntKind::DecFixed(0, 0)); output <= 40 bytes; unwind 18 >= 16 decimal bytes + 2
+#[kani::proof]
+#[kani::unwind(18)]
+#[kani::stub(alloc::fmt::format, crate::verif::stub_format)]
+fn c02_int_u8_decf0_0() {
+	cell_int::<u8>(kani::any(), &nodes::DEC_FIXED0_S0, IntKind::DecFixed(0, 0));
+}
+
+// @harness props=C02,C01 tier=thorough timeout=900
+// @bound every value of u16 presented through serialize_u16 against node decf0_0 (IntKind::DecFixed(0, 0)); output <= 40 bytes; unwind 18 >= 16 decimal bytes + 2
+#[kani::proof]
+#[kani::unwind(18)]
+#[kani::stub(alloc::fmt::format, crate::verif::stub_format)]
+fn c02_int_u16_decf0_0() {
+	cell_int::<u16>(kani::any(), &nodes::DEC_FIXED0_S0, IntKind::DecFixed(0, 0));
+}
+
+// @harness props=C02,C01 tier=thorough timeout=900
+// @bound every value of u32 presented through serialize_u32 against node decf0_0 (IntKind::DecFixed(0, 0)); output <= 40 bytes; unwind 18 >= 16 decimal bytes + 2
+#[kani::proof]
+#[kani::unwind(18)]
+#[kani::stub(alloc::fmt::format, crate::verif::stub_format)]
+fn c02_int_u32_decf0_0() {
+	cell_int::<u32>(kani::any(), &nodes::DEC_FIXED0_S0, IntKind::DecFixed(0, 0));
+}
+
+// @harness props=C02,C01 tier=thorough timeout=900
+// @bound every value of u64 presented through serialize_u64 against node decf0_0 (IntKind::DecFixed(0, 0)); output <= 40 bytes; unwind 18 >= 16 decimal bytes + 2
+#[kani::proof]
+#[kani::unwind(18)]
+#[kani::stub(alloc::fmt::format, crate::verif::stub_format)]
+fn c02_int_u64_decf0_0() {
+	cell_int::<u64>(kani::any(), &nodes::DEC_FIXED0_S0, IntKind::DecFixed(0, 0));
+}
+
+// @harness props=C02,C01 tier=thorough timeout=900
+// @bound every value of u128 presented through serialize_u128 against node decf0_0 (IntKind::DecFixed(0, 0)); output <= 40 bytes; unwind 18 >= 16 decimal bytes + 2
+#[kani::proof]
+#[kani::unwind(18)]
+#[kani::stub(alloc::fmt::format, crate::verif::stub_format)]
+fn c02_int_u128_decf0_0() {
+	cell_int::<u128>(kani::any(), &nodes::DEC_FIXED0_S0, IntKind::DecFixed(0, 0));
+}
+
+// @harness props=C02,C01 tier=thorough timeout=900
+// @bound every value of i8 presented through serialize_i8 against node decf1_0 (IntKind::DecFixed(1, 0)); output <= 40 bytes; unwind 18 >= 16 decimal bytes + 2
+#[kani::proof]
+#[kani::unwind(18)]
+#[kani::stub(alloc::fmt::format, crate::verif::stub_format)]
+fn c02_int_i8_decf1_0() {
+	cell_int::<i8>(kani::any(), &nodes::DEC_FIXED1_S0, IntKind::DecFixed(1, 0));
+}
+
+// @harness props=C02,C01 tier=thorough timeout=900
+// @bound every value of i16 presented through serialize_i16 against node decf1_0 (IntKind::DecFixed(1, 0)); output <= 40 bytes; unwind 18 >= 16 decimal bytes + 2
+#[kani::proof]
+#[kani::unwind(18)]
+#[kani::stub(alloc::fmt::format, crate::verif::stub_format)]
+fn c02_int_i16_decf1_0() {
+	cell_int::<i16>(kani::any(), &nodes::DEC_FIXED1_S0, IntKind::DecFixed(1, 0));
+}
+
+// @harness props=C02,C01 tier=quick timeout=900
+// @bound every value of i32 presented through serialize_i32 against node decf1_0 (IntKind::DecFixed(1, 0)); output <= 40 bytes; unwind 18 >= 16 decimal bytes + 2
+#[kani::proof]
+#[kani::unwind(18)]
+#[kani::stub(alloc::fmt::format, crate::verif::stub_format)]
+fn c02_int_i32_decf1_0() {
+	cell_int::<i32>(kani::any(), &nodes::DEC_FIXED1_S0, IntKind::DecFixed(1, 0));
+}
+
+// @harness props=C02,C01 tier=quick timeout=900
+// @bound every value of i64 presented through serialize_i64 against node decf1_0 (IntKind::DecFixed(1, 0)); output <= 40 bytes; unwind 18 >= 16 decimal bytes + 2
+#[kani::proof]
+#[kani::unwind(18)]
+#[kani::stub(alloc::fmt::format, crate::verif::stub_format)]
+fn c02_int_i64_decf1_0() {
+	cell_int::<i64>(kani::any(), &nodes::DEC_FIXED1_S0, IntKind::DecFixed(1, 0));
+}
+
+// @harness props=C02,C01 tier=quick timeout=900
+// @bound every value of i128 presented through serialize_i128 against node decf1_0 (IntKind::DecFixed(1, 0)); output <= 40 bytes; unwind 18 >= 16 decimal bytes + 2
+#[kani::proof]
+#[kani::unwind(18)]
+#[kani::stub(alloc::fmt::format, crate::verif::stub_format)]
+fn c02_int_i128_decf1_0() {
+	cell_int::<i128>(kani::any(), &nodes::DEC_FIXED1_S0, IntKind::DecFixed(1, 0));
+}
+
+// @harness props=C02,C01 tier=quick timeout=900
+// @bound every value of u8 presented through serialize_u8 against node decf1_0 (IntKind::DecFixed(1, 0)); output <= 40 bytes; unwind 18 >= 16 decimal bytes + 2
+#[kani::proof]
+#[kani::unwind(18)]
+#[kani::stub(alloc::fmt::format, crate::verif::stub_format)]
+fn c02_int_u8_decf1_0() {
+	cell_int::<u8>(kani::any(), &nodes::DEC_FIXED1_S0, IntKind::DecFixed(1, 0));
+}
+
+// @harness props=C02,C01 tier=thorough timeout=900
+// @bound every value of u16 presented through serialize_u16 against node decf1_0 (IntKind::DecFixed(1, 0)); output <= 40 bytes; unwind 18 >= 16 decimal bytes + 2
+#[kani::proof]
+#[kani::unwind(18)]
+#[kani::stub(alloc::fmt::format, crate::verif::stub_format)]
+fn c02_int_u16_decf1_0() {
+	cell_int::<u16>(kani::any(), &nodes::DEC_FIXED1_S0, IntKind::DecFixed(1, 0));
+}
+
+// @harness props=C02,C01 tier=thorough timeout=900
+// @bound every value of u32 presented through serialize_u32 against node decf1_0 (IntKind::DecFixed(1, 0)); output <= 40 bytes; unwind 18 >= 16 decimal bytes + 2
+#[kani::proof]
+#[kani::unwind(18)]
+#[kani::stub(alloc::fmt::format, crate::verif::stub_format)]
+fn c02_int_u32_decf1_0() {
+	cell_int::<u32>(kani::any(), &nodes::DEC_FIXED1_S0, IntKind::DecFixed(1, 0));
+}
+
+// @harness props=C02,C01 tier=quick timeout=900
+// @bound every value of u64 presented through serialize_u64 against node decf1_0 (IntKind::DecFixed(1, 0)); output <= 40 bytes; unwind 18 >= 16 decimal bytes + 2
+#[kani::proof]
+#[kani::unwind(18)]
+#[kani::stub(alloc::fmt::format, crate::verif::stub_format)]
+fn c02_int_u64_decf1_0() {
+	cell_int::<u64>(kani::any(), &nodes::DEC_FIXED1_S0, IntKind::DecFixed(1, 0));
+}
+
+// @harness props=C02,C01 tier=thorough timeout=900
+// @bound every value of u128 presented through serialize_u128 against node decf1_0 (IntKind::DecFixed(1, 0)); output <= 40 bytes; unwind 18 >= 16 decimal bytes + 2
+#[kani::proof]
+#[kani::unwind(18)]
+#[kani::stub(alloc::fmt::format, crate::verif::stub_format)]
+fn c02_int_u128_decf1_0() {
+	cell_int::<u128>(kani::any(), &nodes::DEC_FIXED1_S0, IntKind::DecFixed(1, 0));
+}
+
+// @harness props=C02,C01 tier=thorough timeout=900
+// @bound every value of i8 presented through serialize_i8 against node decf2_0 (IntKind::DecFixed(2, 0)); output <= 40 bytes; unwind 18 >= 16 decimal bytes + 2
+#[kani::proof]
+#[kani::unwind(18)]
+#[kani::stub(alloc::fmt::format, crate::verif::stub_format)]
+fn c02_int_i8_decf2_0() {
+	cell_int::<i8>(kani::any(), &nodes::DEC_FIXED2_S0, IntKind::DecFixed(2, 0));
+}
+
+// @harness props=C02,C01 tier=thorough timeout=900
+// @bound every value of i16 presented through serialize_i16 against node decf2_0 (IntKind::DecFixed(2, 0)); output <= 40 bytes; unwind 18 >= 16 decimal bytes + 2
+#[kani::proof]
+#[kani::unwind(18)]
+#[kani::stub(alloc::fmt::format, crate::verif::stub_format)]
+fn c02_int_i16_decf2_0() {
+	cell_int::<i16>(kani::any(), &nodes::DEC_FIXED2_S0, IntKind::DecFixed(2, 0));
+}
+
+// @harness props=C02,C01 tier=thorough timeout=900
+// @bound every value of i32 presented through serialize_i32 against node decf2_0 (IntKind::DecFixed(2, 0)); output <= 40 bytes; unwind 18 >= 16 decimal bytes + 2
+#[kani::proof]
+#[kani::unwind(18)]
+#[kani::stub(alloc::fmt::format, crate::verif::stub_format)]
+fn c02_int_i32_decf2_0() {
+	cell_int::<i32>(kani::any(), &nodes::DEC_FIXED2_S0, IntKind::DecFixed(2, 0));
+}
+
+// @harness props=C02,C01 tier=thorough timeout=900
+// @bound every value of i64 presented through serialize_i64 against node decf2_0 (IntKind::DecFixed(2, 0)); output <= 40 bytes; unwind 18 >= 16 decimal bytes + 2
+#[kani::proof]
+#[kani::unwind(18)]
+#[kani::stub(alloc::fmt::format, crate::verif::stub_format)]
+fn c02_int_i64_decf2_0() {
+	cell_int::<i64>(kani::any(), &nodes::DEC_FIXED2_S0, IntKind::DecFixed(2, 0));
+}
+
+// @harness props=C02,C01 tier=thorough timeout=900
+// @bound every value of i128 presented through serialize_i128 against node decf2_0 (IntKind::DecFixed(2, 0)); output <= 40 bytes; unwind 18 >= 16 decimal bytes + 2
+#[kani::proof]
+#[kani::unwind(18)]
+#[kani::stub(alloc::fmt::format, crate::verif::stub_format)]
+fn c02_int_i128_decf2_0() {
+	cell_int::<i128>(kani::any(), &nodes::DEC_FIXED2_S0, IntKind::DecFixed(2, 0));
+}
+
+// @harness props=C02,C01 tier=thorough timeout=900
+// @bound every value of u8 presented through serialize_u8 against node decf2_0 (IntKind::DecFixed(2, 0)); output <= 40 bytes; unwind 18 >= 16 decimal bytes + 2
+#[kani::proof]
+#[kani::unwind(18)]
+#[kani::stub(alloc::fmt::format, crate::verif::stub_format)]
+fn c02_int_u8_decf2_0() {
+	cell_int::<u8>(kani::any(), &nodes::DEC_FIXED2_S0, IntKind::DecFixed(2, 0));
+}
+
+// @harness props=C02,C01 tier=thorough timeout=900
+// @bound every value of u16 presented through serialize_u16 against node decf2_0 (IntKind::DecFixed(2, 0)); output <= 40 bytes; unwind 18 >= 16 decimal bytes + 2
+#[kani::proof]
+#[kani::unwind(18)]
+#[kani::stub(alloc::fmt::format, crate::verif::stub_format)]
+fn c02_int_u16_decf2_0() {
+	cell_int::<u16>(kani::any(), &nodes::DEC_FIXED2_S0, IntKind::DecFixed(2, 0));
+}
+
+// @harness props=C02,C01 tier=thorough timeout=900
+// @bound every value of u32 presented through serialize_u32 against node decf2_0 (IntKind::DecFixed(2, 0)); output <= 40 bytes; unwind 18 >= 16 decimal bytes + 2
+#[kani::proof]
+#[kani::unwind(18)]
+#[kani::stub(alloc::fmt::format, crate::verif::stub_format)]
+fn c02_int_u32_decf2_0() {
+	cell_int::<u32>(kani::any(), &nodes::DEC_FIXED2_S0, IntKind::DecFixed(2, 0));
+}
+
+// @harness props=C02,C01 tier=thorough timeout=900
+// @bound every value of u64 presented through serialize_u64 against node decf2_0 (IntKind::DecFixed(2, 0)); output <= 40 bytes; unwind 18 >= 16 decimal bytes + 2
+#[kani::proof]
+#[kani::unwind(18)]
+#[kani::stub(alloc::fmt::format, crate::verif::stub_format)]
+fn c02_int_u64_decf2_0() {
+	cell_int::<u64>(kani::any(), &nodes::DEC_FIXED2_S0, IntKind::DecFixed(2, 0));
+}
+
+// @harness props=C02,C01 tier=thorough timeout=900
+// @bound every value of u128 presented through serialize_u128 against node decf2_0 (IntKind::DecFixed(2, 0)); output <= 40 bytes; unwind 18 >= 16 decimal bytes + 2
+#[kani::proof]
+#[kani::unwind(18)]
+#[kani::stub(alloc::fmt::format, crate::verif::stub_format)]
+fn c02_int_u128_decf2_0() {
+	cell_int::<u128>(kani::any(), &nodes::DEC_FIXED2_S0, IntKind::DecFixed(2, 0));
+}
+
+// @harness props=C02,C01 tier=thorough timeout=900
+// @bound every value of i8 presented through serialize_i8 against node decf8_0 (IntKind::DecFixed(8, 0)); output <= 40 bytes; unwind 18 >= 16 decimal bytes + 2
+#[kani::proof]
+#[kani::unwind(18)]
+#[kani::stub(alloc::fmt::format, crate::verif::stub_format)]
+fn c02_int_i8_decf8_0() {
+	cell_int::<i8>(kani::any(), &nodes::DEC_FIXED8_S0, IntKind::DecFixed(8, 0));
+}
+
+// @harness props=C02,C01 tier=thorough timeout=900
+// @bound every value of i16 presented through serialize_i16 against node decf8_0 (IntKind::DecFixed(8, 0)); output <= 40 bytes; unwind 18 >= 16 decimal bytes + 2
+#[kani::proof]
+#[kani::unwind(18)]
+#[kani::stub(alloc::fmt::format, crate::verif::stub_format)]
+fn c02_int_i16_decf8_0() {
+	cell_int::<i16>(kani::any(), &nodes::DEC_FIXED8_S0, IntKind::DecFixed(8, 0));
+}
+
+// @harness props=C02,C01 tier=thorough timeout=900
+// @bound every value of i32 presented through serialize_i32 against node decf8_0 (IntKind::DecFixed(8, 0)); output <= 40 bytes; unwind 18 >= 16 decimal bytes + 2
+#[kani::proof]
+#[kani::unwind(18)]
+#[kani::stub(alloc::fmt::format, crate::verif::stub_format)]
+fn c02_int_i32_decf8_0() {
+	cell_int::<i32>(kani::any(), &nodes::DEC_FIXED8_S0, IntKind::DecFixed(8, 0));
+}
+
+// @harness props=C02,C01 tier=thorough timeout=900
+// @bound every value of i64 presented through serialize_i64 against node decf8_0 (IntKind::DecFixed(8, 0)); output <= 40 bytes; unwind 18 >= 16 decimal bytes + 2
+#[kani::proof]
+#[kani::unwind(18)]
+#[kani::stub(alloc::fmt::format, crate::verif::stub_format)]
+fn c02_int_i64_decf8_0() {
+	cell_int::<i64>(kani::any(), &nodes::DEC_FIXED8_S0, IntKind::DecFixed(8, 0));
+}
+
+// @harness props=C02,C01 tier=thorough timeout=900
+// @bound every value of i128 presented through serialize_i128 against node decf8_0 (IntKind::DecFixed(8, 0)); output <= 40 bytes; unwind 18 >= 16 decimal bytes + 2
+#[kani::proof]
+#[kani::unwind(18)]
+#[kani::stub(alloc::fmt::format, crate::verif::stub_format)]
+fn c02_int_i128_decf8_0() {
+	cell_int::<i128>(kani::any(), &nodes::DEC_FIXED8_S0, IntKind::DecFixed(8, 0));
+}
+
+// @harness props=C02,C01 tier=thorough timeout=900
+// @bound every value of u8 presented through serialize_u8 against node decf8_0 (IntKind::DecFixed(8, 0)); output <= 40 bytes; unwind 18 >= 16 decimal bytes + 2
+#[kani::proof]
+#[kani::unwind(18)]
+#[kani::stub(alloc::fmt::format, crate::verif::stub_format)]
+fn c02_int_u8_decf8_0() {
+	cell_int::<u8>(kani::any(), &nodes::DEC_FIXED8_S0, IntKind::DecFixed(8, 0));
+}
+
+// @harness props=C02,C01 tier=thorough timeout=900
+// @bound every value of u16 presented through serialize_u16 against node decf8_0 (IntKind::DecFixed(8, 0)); output <= 40 bytes; unwind 18 >= 16 decimal bytes + 2
+#[kani::proof]
+#[kani::unwind(18)]
+#[kani::stub(alloc::fmt::format, crate::verif::stub_format)]
+fn c02_int_u16_decf8_0() {
+	cell_int::<u16>(kani::any(), &nodes::DEC_FIXED8_S0, IntKind::DecFixed(8, 0));
+}
+
+// @harness props=C02,C01 tier=thorough timeout=900
+// @bound every value of u32 presented through serialize_u32 against node decf8_0 (IntKind::DecFixed(8, 0)); output <= 40 bytes; unwind 18 >= 16 decimal bytes + 2
+#[kani::proof]
+#[kani::unwind(18)]
+#[kani::stub(alloc::fmt::format, crate::verif::stub_format)]
+fn c02_int_u32_decf8_0() {
+	cell_int::<u32>(kani::any(), &nodes::DEC_FIXED8_S0, IntKind::DecFixed(8, 0));
+}
+
+// @harness props=C02,C01 tier=thorough timeout=900
+// @bound every value of u64 presented through serialize_u64 against node decf8_0 (IntKind::DecFixed(8, 0)); output <= 40 bytes; unwind 18 >= 16 decimal bytes + 2
+#[kani::proof]
+#[kani::unwind(18)]
+#[kani::stub(alloc::fmt::format, crate::verif::stub_format)]
+fn c02_int_u64_decf8_0() {
+	cell_int::<u64>(kani::any(), &nodes::DEC_FIXED8_S0, IntKind::DecFixed(8, 0));
+}
+
+// @harness props=C02,C01 tier=thorough timeout=900
+// @bound every value of u128 presented through serialize_u128 against node decf8_0 (IntKind::DecFixed(8, 0)); output <= 40 bytes; unwind 18 >= 16 decimal bytes + 2
+#[kani::proof]
+#[kani::unwind(18)]
+#[kani::stub(alloc::fmt::format, crate::verif::stub_format)]
+fn c02_int_u128_decf8_0() {
+	cell_int::<u128>(kani::any(), &nodes::DEC_FIXED8_S0, IntKind::DecFixed(8, 0));
+}
+
+// @harness props=C02,C01 tier=thorough timeout=900
+// @bound every value of i8 presented through serialize_i8 against node decf16_0 (IntKind::DecFixed(16, 0)); output <= 40 bytes; unwind 18 >= 16 decimal bytes + 2
+#[kani::proof]
+#[kani::unwind(18)]
+#[kani::stub(alloc::fmt::format, crate::verif::stub_format)]
+fn c02_int_i8_decf16_0() {
+	cell_int::<i8>(kani::any(), &nodes::DEC_FIXED16_S0, IntKind::DecFixed(16, 0));
+}
+
+// @harness props=C02,C01 tier=thorough timeout=900
+// @bound every value of i16 presented through serialize_i16 against node decf16_0 (IntKind::DecFixed(16, 0)); output <= 40 bytes; unwind 18 >= 16 decimal bytes + 2
+#[kani::proof]
+#[kani::unwind(18)]
+#[kani::stub(alloc::fmt::format, crate::verif::stub_format)]
+fn c02_int_i16_decf16_0() {
+	cell_int::<i16>(kani::any(), &nodes::DEC_FIXED16_S0, IntKind::DecFixed(16, 0));
+}
+
+// @harness props=C02,C01 tier=thorough timeout=900
+// @bound every value of i32 presented through serialize_i32 against node decf16_0 (IntKind::DecFixed(16, 0)); output <= 40 bytes; unwind 18 >= 16 decimal bytes + 2
+#[kani::proof]
+#[kani::unwind(18)]
+#[kani::stub(alloc::fmt::format, crate::verif::stub_format)]
+fn c02_int_i32_decf16_0() {
+	cell_int::<i32>(kani::any(), &nodes::DEC_FIXED16_S0, IntKind::DecFixed(16, 0));
+}
+
+// @harness props=C02,C01 tier=thorough timeout=900
+// @bound every value of i64 presented through serialize_i64 against node decf16_0 (IntKind::DecFixed(16, 0)); output <= 40 bytes; unwind 18 >= 16 decimal bytes + 2
+#[kani::proof]
+#[kani::unwind(18)]
+#[kani::stub(alloc::fmt::format, crate::verif::stub_format)]
+fn c02_int_i64_decf16_0() {
+	cell_int::<i64>(kani::any(), &nodes::DEC_FIXED16_S0, IntKind::DecFixed(16, 0));
+}
+
+// @harness props=C02,C01 tier=thorough timeout=900
+// @bound every value of i128 presented through serialize_i128 against node decf16_0 (IntKind::DecFixed(16, 0)); output <= 40 bytes; unwind 18 >= 16 decimal bytes + 2
+#[kani::proof]
+#[kani::unwind(18)]
+#[kani::stub(alloc::fmt::format, crate::verif::stub_format)]
+fn c02_int_i128_decf16_0() {
+	cell_int::<i128>(kani::any(), &nodes::DEC_FIXED16_S0, IntKind::DecFixed(16, 0));
+}
+
+// @harness props=C02,C01 tier=thorough timeout=900
+// @bound every value of u8 presented through serialize_u8 against node decf16_0 (IntKind::DecFixed(16, 0)); output <= 40 bytes; unwind 18 >= 16 decimal bytes + 2
+#[kani::proof]
+#[kani::unwind(18)]
+#[kani::stub(alloc::fmt::format, crate::verif::stub_format)]
+fn c02_int_u8_decf16_0() {
+	cell_int::<u8>(kani::any(), &nodes::DEC_FIXED16_S0, IntKind::DecFixed(16, 0));
+}
+
+// @harness props=C02,C01 tier=thorough timeout=900
+// @bound every value of u16 presented through serialize_u16 against node decf16_0 (IntKind::DecFixed(16, 0)); output <= 40 bytes; unwind 18 >= 16 decimal bytes + 2
+#[kani::proof]
+#[kani::unwind(18)]
+#[kani::stub(alloc::fmt::format, crate::verif::stub_format)]
+fn c02_int_u16_decf16_0() {
+	cell_int::<u16>(kani::any(), &nodes::DEC_FIXED16_S0, IntKind::DecFixed(16, 0));
+}
+
+// @harness props=C02,C01 tier=thorough timeout=900
+// @bound every value of u32 presented through serialize_u32 against node decf16_0 (IntKind::DecFixed(16, 0)); output <= 40 bytes; unwind 18 >= 16 decimal bytes + 2
+#[kani::proof]
+#[kani::unwind(18)]
+#[kani::stub(alloc::fmt::format, crate::verif::stub_format)]
+fn c02_int_u32_decf16_0() {
+	cell_int::<u32>(kani::any(), &nodes::DEC_FIXED16_S0, IntKind::DecFixed(16, 0));
+}
+
+// @harness props=C02,C01 tier=thorough timeout=900
+// @bound every value of u64 presented through serialize_u64 against node decf16_0 (IntKind::DecFixed(16, 0)); output <= 40 bytes; unwind 18 >= 16 decimal bytes + 2
+#[kani::proof]
+#[kani::unwind(18)]
+#[kani::stub(alloc::fmt::format, crate::verif::stub_format)]
+fn c02_int_u64_decf16_0() {
+	cell_int::<u64>(kani::any(), &nodes::DEC_FIXED16_S0, IntKind::DecFixed(16, 0));
+}
+
+// @harness props=C02,C01 tier=thorough timeout=900
+// @bound every value of u128 presented through serialize_u128 against node decf16_0 (IntKind::DecFixed(16, 0)); output <= 40 bytes; unwind 18 >= 16 decimal bytes + 2
+#[kani::proof]
+#[kani::unwind(18)]
+#[kani::stub(alloc::fmt::format, crate::verif::stub_format)]
+fn c02_int_u128_decf16_0() {
+	cell_int::<u128>(kani::any(), &nodes::DEC_FIXED16_S0, IntKind::DecFixed(16, 0));
+}
+
+// @harness props=C02,C01 tier=thorough timeout=900
+// @bound every value of i8 presented through serialize_i8 against node decf17_0 (IntKind::DecFixed(17, 0)); output <= 40 bytes; unwind 18 >= 16 decimal bytes + 2
+#[kani::proof]
+#[kani::unwind(18)]
+#[kani::stub(alloc::fmt::format, crate::verif::stub_format)]
+fn c02_int_i8_decf17_0() {
+	cell_int::<i8>(kani::any(), &nodes::DEC_FIXED17_S0, IntKind::DecFixed(17, 0));
+}
+
+// @harness props=C02,C01 tier=thorough timeout=900
+// @bound every value of i16 presented through serialize_i16 against node decf17_0 (IntKind::DecFixed(17, 0)); output <= 40 bytes; unwind 18 >= 16 decimal bytes + 2
+#[kani::proof]
+#[kani::unwind(18)]
+#[kani::stub(alloc::fmt::format, crate::verif::stub_format)]
+fn c02_int_i16_decf17_0() {
+	cell_int::<i16>(kani::any(), &nodes::DEC_FIXED17_S0, IntKind::DecFixed(17, 0));
+}
+
+// @harness props=C02,C01 tier=thorough timeout=900
+// @bound every value of i32 presented through serialize_i32 against node decf17_0 (IntKind::DecFixed(17, 0)); output <= 40 bytes; unwind 18 >= 16 decimal bytes + 2
+#[kani::proof]
+#[kani::unwind(18)]
+#[kani::stub(alloc::fmt::format, crate::verif::stub_format)]
+fn c02_int_i32_decf17_0() {
+	cell_int::<i32>(kani::any(), &nodes::DEC_FIXED17_S0, IntKind::DecFixed(17, 0));
+}
+
+// @harness props=C02,C01 tier=thorough timeout=900
+// @bound every value of i64 presented through serialize_i64 against node decf17_0 (IntKind::DecFixed(17, 0)); output <= 40 bytes; unwind 18 >= 16 decimal bytes + 2
+#[kani::proof]
+#[kani::unwind(18)]
+#[kani::stub(alloc::fmt::format, crate::verif::stub_format)]
+fn c02_int_i64_decf17_0() {
+	cell_int::<i64>(kani::any(), &nodes::DEC_FIXED17_S0, IntKind::DecFixed(17, 0));
+}
+
+// @harness props=C02,C01 tier=thorough timeout=900
+// @bound every value of i128 presented through serialize_i128 against node decf17_0 (IntKind::DecFixed(17, 0)); output <= 40 bytes; unwind 18 >= 16 decimal bytes + 2
+#[kani::proof]
+#[kani::unwind(18)]
+#[kani::stub(alloc::fmt::format, crate::verif::stub_format)]
+fn c02_int_i128_decf17_0() {
+	cell_int::<i128>(kani::any(), &nodes::DEC_FIXED17_S0, IntKind::DecFixed(17, 0));
+}
+
+// @harness props=C02,C01 tier=thorough timeout=900
+// @bound every value of u8 presented through serialize_u8 against node decf17_0 (IntKind::DecFixed(17, 0)); output <= 40 bytes; unwind 18 >= 16 decimal bytes + 2
+#[kani::proof]
+#[kani::unwind(18)]
+#[kani::stub(alloc::fmt::format, crate::verif::stub_format)]
+fn c02_int_u8_decf17_0() {
+	cell_int::<u8>(kani::any(), &nodes::DEC_FIXED17_S0, IntKind::DecFixed(17, 0));
+}
+
+// @harness props=C02,C01 tier=thorough timeout=900
+// @bound every value of u16 presented through serialize_u16 against node decf17_0 (IntKind::DecFixed(17, 0)); output <= 40 bytes; unwind 18 >= 16 decimal bytes + 2
+#[kani::proof]
+#[kani::unwind(18)]
+#[kani::stub(alloc::fmt::format, crate::verif::stub_format)]
+fn c02_int_u16_decf17_0() {
+	cell_int::<u16>(kani::any(), &nodes::DEC_FIXED17_S0, IntKind::DecFixed(17, 0));
+}
+
+// @harness props=C02,C01 tier=thorough timeout=900
+// @bound every value of u32 presented through serialize_u32 against node decf17_0 (IntKind::DecFixed(17, 0)); output <= 40 bytes; unwind 18 >= 16 decimal bytes + 2
+#[kani::proof]
+#[kani::unwind(18)]
+#[kani::stub(alloc::fmt::format, crate::verif::stub_format)]
+fn c02_int_u32_decf17_0() {
+	cell_int::<u32>(kani::any(), &nodes::DEC_FIXED17_S0, IntKind::DecFixed(17, 0));
+}
+
+// @harness props=C02,C01 tier=thorough timeout=900
+// @bound every value of u64 presented through serialize_u64 against node decf17_0 (IntKind::DecFixed(17, 0)); output <= 40 bytes; unwind 18 >= 16 decimal bytes + 2
+#[kani::proof]
+#[kani::unwind(18)]
+#[kani::stub(alloc::fmt::format, crate::verif::stub_format)]
+fn c02_int_u64_decf17_0() {
+	cell_int::<u64>(kani::any(), &nodes::DEC_FIXED17_S0, IntKind::DecFixed(17, 0));
+}
+
+// @harness props=C02,C01 tier=thorough timeout=900
+// @bound every value of u128 presented through serialize_u128 against node decf17_0 (IntKind::DecFixed(17, 0)); output <= 40 bytes; unwind 18 >= 16 decimal bytes + 2
+#[kani::proof]
+#[kani::unwind(18)]
+#[kani::stub(alloc::fmt::format, crate::verif::stub_format)]
+fn c02_int_u128_decf17_0() {
+	cell_int::<u128>(kani::any(), &nodes::DEC_FIXED17_S0, IntKind::DecFixed(17, 0));
+}
+
+// @harness props=C02,C01 tier=thorough timeout=900
+// @bound every value of i8 presented through serialize_i8 against node decf2_1 (IntKind::DecFixed(2, 1)); output <= 40 bytes; unwind 18 >= 16 decimal bytes + 2
+#[kani::proof]
+#[kani::unwind(18)]
+#[kani::stub(alloc::fmt::format, crate::verif::stub_format)]
+fn c02_int_i8_decf2_1() {
+	cell_int::<i8>(kani::any(), &nodes::DEC_FIXED2_S1, IntKind::DecFixed(2, 1));
+}
+
+// @harness props=C02,C01 tier=thorough timeout=900
+// @bound every value of i16 presented through serialize_i16 against node decf2_1 (IntKind::DecFixed(2, 1)); output <= 40 bytes; unwind 18 >= 16 decimal bytes + 2
+#[kani::proof]
+#[kani::unwind(18)]
+#[kani::stub(alloc::fmt::format, crate::verif::stub_format)]
+fn c02_int_i16_decf2_1() {
+	cell_int::<i16>(kani::any(), &nodes::DEC_FIXED2_S1, IntKind::DecFixed(2, 1));
+}
+
+// @harness props=C02,C01 tier=quick timeout=900
+// @bound every value of i32 presented through serialize_i32 against node decf2_1 (IntKind::DecFixed(2, 1)); output <= 40 bytes; unwind 18 >= 16 decimal bytes + 2
+#[kani::proof]
+#[kani::unwind(18)]
+#[kani::stub(alloc::fmt::format, crate::verif::stub_format)]
+fn c02_int_i32_decf2_1() {
+	cell_int::<i32>(kani::any(), &nodes::DEC_FIXED2_S1, IntKind::DecFixed(2, 1));
+}
+
+// @harness props=C02,C01 tier=quick timeout=900
+// @bound every value of i64 presented through serialize_i64 against node decf2_1 (IntKind::DecFixed(2, 1)); output <= 40 bytes; unwind 18 >= 16 decimal bytes + 2
+#[kani::proof]
+#[kani::unwind(18)]
+#[kani::stub(alloc::fmt::format, crate::verif::stub_format)]
+fn c02_int_i64_decf2_1() {
+	cell_int::<i64>(kani::any(), &nodes::DEC_FIXED2_S1, IntKind::DecFixed(2, 1));
+}
+
+// @harness props=C02,C01 tier=quick timeout=900
+// @bound every value of i128 presented through serialize_i128 against node decf2_1 (IntKind::DecFixed(2, 1)); output <= 40 bytes; unwind 18 >= 16 decimal bytes + 2
+#[kani::proof]
+#[kani::unwind(18)]
+#[kani::stub(alloc::fmt::format, crate::verif::stub_format)]
+fn c02_int_i128_decf2_1() {
+	cell_int::<i128>(kani::any(), &nodes::DEC_FIXED2_S1, IntKind::DecFixed(2, 1));
+}
+
+// @harness props=C02,C01 tier=quick timeout=900
+// @bound every value of u8 presented through serialize_u8 against node decf2_1 (IntKind::DecFixed(2, 1)); output <= 40 bytes; unwind 18 >= 16 decimal bytes + 2
+#[kani::proof]
+#[kani::unwind(18)]
+#[kani::stub(alloc::fmt::format, crate::verif::stub_format)]
+fn c02_int_u8_decf2_1() {
+	cell_int::<u8>(kani::any(), &nodes::DEC_FIXED2_S1, IntKind::DecFixed(2, 1));
+}
+
+// @harness props=C02,C01 tier=thorough timeout=900
+// @bound every value of u16 presented through serialize_u16 against node decf2_1 (IntKind::DecFixed(2, 1)); output <= 40 bytes; unwind 18 >= 16 decimal bytes + 2
+#[kani::proof]
+#[kani::unwind(18)]
+#[kani::stub(alloc::fmt::format, crate::verif::stub_format)]
+fn c02_int_u16_decf2_1() {
+	cell_int::<u16>(kani::any(), &nodes::DEC_FIXED2_S1, IntKind::DecFixed(2, 1));
+}
+
+// @harness props=C02,C01 tier=thorough timeout=900
+// @bound every value of u32 presented through serialize_u32 against node decf2_1 (IntKind::DecFixed(2, 1)); output <= 40 bytes; unwind 18 >= 16 decimal bytes + 2
+#[kani::proof]
+#[kani::unwind(18)]
+#[kani::stub(alloc::fmt::format, crate::verif::stub_format)]
+fn c02_int_u32_decf2_1() {
+	cell_int::<u32>(kani::any(), &nodes::DEC_FIXED2_S1, IntKind::DecFixed(2, 1));
+}
+
+// @harness props=C02,C01 tier=quick timeout=900
+// @bound every value of u64 presented through serialize_u64 against node decf2_1 (IntKind::DecFixed(2, 1)); output <= 40 bytes; unwind 18 >= 16 decimal bytes + 2
+#[kani::proof]
+#[kani::unwind(18)]
+#[kani::stub(alloc::fmt::format, crate::verif::stub_format)]
+fn c02_int_u64_decf2_1() {
+	cell_int::<u64>(kani::any(), &nodes::DEC_FIXED2_S1, IntKind::DecFixed(2, 1));
+}
+
+// @harness props=C02,C01 tier=thorough timeout=900
+// @bound every value of u128 presented through serialize_u128 against node decf2_1 (IntKind::DecFixed(2, 1)); output <= 40 bytes; unwind 18 >= 16 decimal bytes + 2
+#[kani::proof]
+#[kani::unwind(18)]
+#[kani::stub(alloc::fmt::format, crate::verif::stub_format)]
+fn c02_int_u128_decf2_1() {
+	cell_int::<u128>(kani::any(), &nodes::DEC_FIXED2_S1, IntKind::DecFixed(2, 1));
+}
